@@ -77,6 +77,9 @@ def run_case(arg):
             r = iradon_torch(y, theta=th, filter_name=None).detach().cpu().numpy()
             if not torch.equal(y, y0):
                 bad("C07:inputs-modified", "iradon_torch modified its input sinogram")
+            if not torch.equal(th, torch.tensor(ang, dtype=torch.float32)):
+                bad("C07:inputs-modified", "the caller's angle tensor was modified")
+                th = torch.tensor(ang, dtype=torch.float32)
             rt = 2e-5 * max(1.0, float(np.abs(bp).max()))
             if r.shape != bp.shape or np.abs(r - bp).max() > rt:
                 bad(f"C07:iradon:unfiltered:{'even' if n % 2 == 0 else 'odd'}", f"unfiltered back-projection deviates from the exact one by "
@@ -130,6 +133,7 @@ def differential(arg):
         for ai, th in enumerate(angle_sets(n, rng)):
             tht = torch.tensor(th, dtype=torch.float32)
             sinos = {}
+            tht0 = tht.clone()
             for name, im in ims.items():
                 ref = radon(im * disc, theta=th, circle=True)                    # (N, A)
                 got = radon_torch(torch.tensor(im, dtype=torch.float32), theta=tht).numpy().reshape(len(th), n).T
@@ -168,6 +172,9 @@ def differential(arg):
                 out.append(("C07:iradon:batch", f"N={n} angles#{ai} filter={fname}: batched call differs from per-image calls"))
             if np.abs(rb[2] - (r0 - 0.5 * r1)).max() > 1e-4 * scale:
                 out.append(("C07:iradon:linear", f"N={n} angles#{ai} filter={fname}: iradon is not linear"))
+            if not torch.equal(tht, tht0):
+                out.append(("C07:inputs-modified", f"N={n} angles#{ai}: the caller's angle tensor was modified"))
+                tht = tht0.clone()
             # circle=False and explicit output sizes
             # (circle=False and output grids larger than the sinogram are compared at oblique angles only: at right
             # angles grid points fall EXACTLY on the last sinogram sample and whether they count as inside depends on
